@@ -43,7 +43,8 @@ def finding_matches(e, clause, case):
     if "clauses" in e and clause not in e["clauses"]:
         return False
     try:
-        return bool(eval(e["when"], {"__builtins__": {}}, dict(_SAFE, c=case, clause=clause)))
+        # one namespace (globals): names used inside generator expressions / lambdas of the predicate must resolve too
+        return bool(eval(e["when"], dict(_SAFE, __builtins__={}, c=case, clause=clause)))
     except Exception:
         return False
 
